@@ -216,8 +216,8 @@ def run_impl(case):
     store = {}
     tap(lk._db_api, ["__splink__df_concat_with_tf", "__splink__df_comparison_vector_distribution"], store)
     res["tf"] = {c: lk.table_management.compute_tf_table(c).as_record_dict() for c in COLS}
-    if case["backend"] == "duckdb":
-        api = su.make_api("duckdb")
+    if True:      # completeness works on SQLite too since /repo 452d5274
+        api = su.make_api(case["backend"])
         d = api.register_multiple_tables(frames_of(case))
         res["completeness"] = completeness_data(d, api, case["completeness_cols"], list(case["names"]))
     dfp = lk.inference.predict()
@@ -260,7 +260,7 @@ def run_impl(case):
             return out
         raw_names = [f"raw{i}" for i in range(len(case["raw_tables"]))]
         # tables registered BY NAME on one DatabaseAPI per function; contents replaced between the calls
-        capi = su.make_api("duckdb") if case["backend"] == "duckdb" else None
+        capi = su.make_api(case["backend"])
         papi = su.make_api(case["backend"])
         pcap2 = {}
         porig2 = papi.sql_pipeline_to_splink_dataframe
@@ -285,7 +285,7 @@ def run_impl(case):
                     capi.delete_tables_created_by_splink_from_db()
                 res[f"{tag}_named_completeness"] = completeness_data(capi.register_multiple_tables(raw_names[:1]), capi, None, raw_names[:1])
                 if step == 0:      # several tables as data frames (bags with duplicates)
-                    api0 = su.make_api("duckdb")
+                    api0 = su.make_api(case["backend"])
                     res["raw_completeness"] = completeness_data(api0.register_multiple_tables(raw_frames_of(case[key])), api0, None, raw_names)
             # by name: ONE table (with several tables the SQL text contains fresh random aliases and is never reused);
             # no cleanup call: profile_columns cleans up after itself
